@@ -184,6 +184,19 @@ AskT == /\ ~out.has
 DescribeT == AskT
 DescribeA == DescribeT /\ Log("Describe", <<>>, g, Describe(g))
 
+(* Constructors: <<constructor, container of its argument>>.  The map built from the reading of  *)
+(* g (its ungapped segments / spans / gap dictionary / text) is Describe(g) whatever container   *)
+(* the argument comes in, as far as the signature accepts an iterable.                           *)
+Constructors ==
+    {<<"segments", "list">>, <<"segments", "tuple">>, <<"segments", "generator">>, <<"segments", "iter">>,
+     <<"segments", "array">>, <<"segments", "list_of_lists">>,
+     <<"spans", "list">>, <<"spans", "tuple">>,
+     <<"gapdict", "dict">>, <<"gapdict", "numpy_keys">>,
+     <<"arrays", "int32">>, <<"arrays", "int64">>, <<"arrays", "gap_lengths">>,
+     <<"parse", "text">>}
+BuildT(c) == AskT
+Build(c) == BuildT(c) /\ Log("Build", c, g, 0)
+
 SliceT(a, b) == CallT(SliceS(g, a, b))
 Slice(a, b) == SliceT(a, b) /\ Log("Slice", <<a, b>>, SliceS(g, a, b), 0)
 
@@ -225,6 +238,7 @@ Drop  == out.has /\ g' = g /\ out' = NoOut
 Init == g \in Str(MaxLen) /\ out = NoOut
 
 Call == \/ DescribeA
+        \/ \E c \in Constructors : Build(c)
         \/ \E a, b \in (0 - Len(g))..Len(g) : Slice(a, b)
         \/ \E i \in (0 - Len(g))..(Len(g) - 1) : Index(i)
         \/ \E h \in Str(MaxLen) : Concat(h)
